@@ -3,7 +3,7 @@
     Model/ValuedCheck.v verified checker). *)
 From Coq Require Import List NArith Bool.
 From MOC.Base Require Import RangeSet.
-From MOC.Model Require Import Qty Query Build Valued ValuedCheck.
+From MOC.Model Require Import Qty Query Build Valued ValuedCheck ValuedSel.
 Import ListNotations.
 Open Scope N_scope.
 
@@ -80,6 +80,29 @@ Theorem C20_checker_bracket_exact : forall maxd0 cells from to asc strict nospli
   else to - from <= total /\ total <= to - from + slack.
 Proof. exact check_bracket_exact. Qed.
 
+
+(** THE COMPLETE SELECTION (whole cells between the thresholds + descent in the lower boundary
+    cell + descent in the upper boundary cell, composed as the repaired code does) brackets the
+    requested mass: for every map whose cell values are positive multiples of their deepest
+    sub-cell value, every 0 <= from <= to <= total that do not fall strictly inside the same
+    cell (known finding D19b), every option combination.  [p] exhibits the three parts of
+    the output; the slack is one deepest piece per boundary cell (the whole boundary cell in
+    no-split mode). *)
+Theorem C20_selection_brackets_requested_mass : forall maxd sorted from to strict nosplit rev,
+  Forall (Div maxd) sorted -> from <= to -> to <= sumv sorted ->
+  (forall pre c post, sorted = pre ++ c :: post -> ~ (sumv pre < from /\ to < sumv pre + vv c)) ->
+  exists p, select_sorted true maxd sorted from to strict nosplit rev = Some (parts_out p) /\
+    let m := parts_mass p in let s := parts_slack nosplit maxd p in
+    if strict then m <= to - from /\ to - from <= m + s
+    else to - from <= m /\ m <= to - from + s.
+Proof. exact select_sorted_brackets. Qed.
+
+(** [select_sorted] is [select] after its sort and maximum-depth computation *)
+Theorem C20_select_is_select_sorted : forall fixed maxd0 cells from to asc strict nosplit rev,
+  select fixed maxd0 cells from to asc strict nosplit rev =
+  select_sorted fixed (fold_left (fun m c => N.max m (vd c)) cells maxd0) (sort asc cells) from to strict nosplit rev.
+Proof. exact select_is_select_sorted. Qed.
+
 (** D19a: before the repair the accumulated value was not advanced past the lower boundary
     cell in split mode: three cells of value 4, from = 2, to = 6, strict: 7 units selected for
     a target of 4; the repaired selection encloses 4 *)
@@ -123,3 +146,5 @@ Print Assumptions C20_checker_respects_order.
 Print Assumptions C20_checker_bracket_exact.
 Print Assumptions C20_d19a_refuted.
 Print Assumptions C20_d19b_same_cell_refuted.
+Print Assumptions C20_selection_brackets_requested_mass.
+Print Assumptions C20_select_is_select_sorted.
